@@ -92,7 +92,12 @@ func runC06(c *Ctx) {
 				continue
 			}
 			seen[key] = true
-			if why, ok := c06MapLoopAllow[key]; ok {
+			why, ok := c06MapLoopAllow[key]
+			if !ok {
+				// the listed loop may sit in a part of the function that was split off since
+				why, ok = c06MapLoopAllow[FuncName(effectiveOwner(p, f.Fn))+"|"+f.Kind]
+			}
+			if ok {
 				c.Hold(rule, key, p.Pos(InstrPos(f.Instr)), "listed: "+why)
 				continue
 			}
@@ -169,7 +174,7 @@ func runC06(c *Ctx) {
 				c.Hold(rule, construct, p.Pos(InstrPos(w.Instr)), "removal / compaction: the new value is built from Next itself (order-preserving)")
 				continue
 			}
-			ok := TopFunc(w.Fn) == attach
+			ok := effectiveOwner(p, w.Fn) == attach // (a part of attach split off into a new function still counts)
 			c.Check(ok, rule, construct, p.Pos(InstrPos(w.Instr)),
 				orDefault(map[bool]string{false: "a change is inserted into Change.Next outside Tree.attach: the sorted-children invariant has a second writer"}[ok], "insertion performed by Tree.attach"))
 		}
@@ -177,9 +182,28 @@ func runC06(c *Ctx) {
 	}
 	{
 		rule := "C06.2-ascending-insert"
-		c.Fn(FuncName(attach))
+		attach := attach
 		// inserting writes: stores/appends that put the attached change (parameter c) into Next
 		cParam := attach.Params[1]
+		if ins := descendToWrites(attach, fNext); ins != attach {
+			// the ordered insertion was moved into a function of its own: decide it there, for
+			// the parameter that receives the attached change
+			var mapped *ssa.Parameter
+			for _, ci := range CallsIn(attach) {
+				if CalleeFunc(ci.Common()) != ins {
+					continue
+				}
+				for i, a := range ci.Common().Args {
+					if a == ssa.Value(cParam) && i < len(ins.Params) {
+						mapped = ins.Params[i]
+					}
+				}
+			}
+			if mapped != nil {
+				attach, cParam = ins, mapped
+			}
+		}
+		c.Fn(FuncName(attach))
 		isC := func(v ssa.Value) bool { return v == cParam }
 		var endAppends, midStores []ssa.Instruction
 		usesSort := false
